@@ -14,6 +14,8 @@ CHECKS = {
          "metrics bounded by 2^20; HarfBuzz by contract; scale arithmetic inside HarfBuzz outside"),
  "C15": ("symbolic execution of the real retainsBestMatches/matchStretch/matchStyle/matchWeight/filterBy* over candidate sets whose aspects are symbolic grid values (IEEE float32 terms), every request case-split; the solver decides equality with a CSS Fonts §5.2 reference for all candidate multisets of the bounded size",
          "values off the grid and larger candidate sets outside"),
+ "C18": ("the real propagateFlags and unsafeToBreak/setGlyphFlags/infosSetGlyphFlags on arbitrary buffers (symbolic masks, monotone clusters, buffer flags, cluster levels): flag uniformity inside clusters and exact flag placement decided for all buffers within the glyph-count bound",
+         "second sentence of the property only (flag uniformity and its flag-setting kernel); the cut-and-reshape law needs the real shaper on real fonts and is outside the claim"),
  "C19": ("bounded symbolic execution of the real WriteTTF/checksum/writeTTFHeader and NewLoader/Tables/RawTable; an SMT solver decides every assertion for all table contents, tags and spare-capacity bytes within the table-count/length bound",
          "table count and lengths bounded"),
  "C20": ("single symbolic code point (all 2^32 rune values) through the real Lookup*/Compose/Decompose/LookupMirrorChar/LookupScript code and the real generated tables; all 256 Direction values; all byte strings up to the bound for NewLanguage; binarySearchLang over every small sorted table",
